@@ -351,7 +351,7 @@ Outcome Interp::exec(const Op &op) {
             else if (how == 1) { ezc3d::DataNS::Points3dNS::Point pt; pt.name("caller_added"); fillPoint(pt, r); f.points_nonConst().point(pt); out.note = "points-add"; }
             else if (how == 2) {
                 auto &A = f.analogs_nonConst();
-                for (size_t s = 0; s < A.nbSubframes(); ++s) for (size_t c = 0; c < A.subframe(s).nbChannels(); ++c)
+                for (size_t s = 0; s < A.nbSubframes(); ++s) for (size_t c = 0; c < A.subframe_nonConst(s).nbChannels(); ++c)
                     A.subframe_nonConst(s).channel_nonConst(c).data(bitsToFloat(genFloatBits(r)));
                 out.note = "analog-values";
             }
@@ -451,7 +451,7 @@ Outcome Interp::exec(const Op &op) {
             for (auto &f : lastCol) {
                 auto &P = f.points_nonConst(); for (size_t i = 0; i < P.nbPoints(); ++i) fillPoint(P.point_nonConst(i), r);
                 auto &A = f.analogs_nonConst();
-                for (size_t s = 0; s < A.nbSubframes(); ++s) for (size_t c = 0; c < A.subframe(s).nbChannels(); ++c)
+                for (size_t s = 0; s < A.nbSubframes(); ++s) for (size_t c = 0; c < A.subframe_nonConst(s).nbChannels(); ++c)
                     A.subframe_nonConst(s).channel_nonConst(c).data(bitsToFloat(genFloatBits(r)));
             }
         }
